@@ -255,7 +255,7 @@ contract(
         "layers >= alloc_at_entry()",
     ], modifies=["layers[]"])},
     domain=False,
-    props=EDIT_PROPS,
+    props=EDIT_PROPS + ["C14"],  # the scope mapping of C14 is this container: it must stay the same object
 )
 
 # ---------------------------------------------------------------------------------------------
@@ -381,7 +381,7 @@ contract(
         "all(layers[j].scope is old(layers[j].scope) and layers[j].after_let_comment is old(layers[j].after_let_comment) for j in range(len(layers)))",
     ],
     domain=False,
-    props=EDIT_PROPS,
+    props=EDIT_PROPS + ["C14"],  # the scope mapping of C14 is this container: it must stay the same object
 )
 
 # ---------------------------------------------------------------------------------------------
